@@ -17,13 +17,13 @@ MANIFEST = {
              '(C10_equals_sym, C10_equals_trans), reflexive with skipna and always on the same object (C10_frame_equals_refl, C10_series_equals_refl, '
              'C10_equals_same_object), default comparison characterised (C10_frame_default_exactly), options add exactly their clause (C10_frame_options_add_exactly, '
              'C10_series_options_add_exactly). Implementation model M_tb_equals of TypeBlocks.equals (the three operand paths of == : block-compatible / reblocked / '
-             '.values with the row dtype, the both-missing mask, the walk over eq blocks with start/end offsets into the mask) equals S for EVERY pair of block layouts '
-             'with only well-formedness and the NaT-coercion guard as hypotheses (C10_tb_refines, stated over the mask operands and the column-less answer extracted '
+             'column by column through axis_values(0), the both-missing mask, the walk over eq blocks with start/end offsets into the mask) equals S for EVERY pair of block layouts '
+             'with only well-formedness and a layout-free guard (no datetime64 column holding NaT faces an object column) as hypotheses (C10_tb_refines, stated over the mask operands and the column-less answer extracted '
              'from the source, C10_masks_in_source; C10_tb_refines_any_mask for an arbitrary mask under tb_dom; C10_tb_layout_independent); Frame, Bus, Series, Index models refine S (C10_frame_refines, C10_bus_refines, C10_series_refines, C10_index_refines); '
              'HE: == symmetric, equal containers have the same hash key, the hash model hashes that key (C10_he_eq_sym, C10_he_frame_eq_hash, C10_he_series_eq_hash, '
              'C10_he_hash_model_is_key). The mask operands and include_none flags of TypeBlocks/Series/Index.equals, the equals keyword defaults and the keyword constants '
              'of SeriesHE/FrameHE.__eq__ are re-extracted from the source by ast on every run (Gen/Gen_c10.v); the theorems are stated over those generated constants '
-             '(C10_defaults_in_source, C10_masks_in_source, C10_he_options_in_source). Refuted/C10.v holds the computed witness of the one remaining known finding. '
+             '(C10_defaults_in_source, C10_masks_in_source, C10_he_options_in_source). No known finding remains (four were found and repaired: f01dccf, c228306, a6983c4, e1c1c73); their inputs stay as regression cases. '
              'Correspondence: TypeBlocks.equals called directly on exhaustively enumerated small block pairs (all cell pairs of the alphabet x 1-D/2-D x skipna; all pairs of '
              'NaN masks x all pairs of layouts) and random multi-dtype tables; Frame/Series/Index/IndexHierarchy/Bus.equals, HE ==, !=, hash, set and dict membership '
              'through the public interface on pairs differing in exactly one cell, label, dtype, name, class, layout, shape or order, with NaN/None/NaT on one or both '
@@ -33,11 +33,11 @@ MANIFEST = {
              'Partial: the IndexLevel.equals tree walk is modelled (M_level_walk) and run against the implementation and against the flat-label specification, but M=S is '
              'NOT proved for hierarchies (the refinement theorems for Series/Frame/Bus require flat axes); the Python hash function itself is not modelled (assumption: '
              '==-equal scalars hash alike). Pairs of DIFFERENT missing values at one position (None vs NaN, NaT vs None, NaN vs NaT) are not determined by the property: '
-             'M is compared there, S is not. One known finding (C10-nat-values-path, known/C10.jsonl) is witnessed in every run; three repaired ones (f01dccf, c228306, a6983c4) stay as regression inputs.'),
+             'M is compared there, S is not. No open known finding; the inputs of the four repaired ones stay as regression cases (specification = correct behaviour).'),
     'technique': 'refinement proof M=S over all block layouts + generated constants + differential correspondence',
 }
 PROPERTY_FILES = ['Properties/C10.v']
-REFUTED_FILES = ['Refuted/C10.v']
+REFUTED_FILES = []
 GENERATED_FILES = ['Gen/Gen_c10.v']
 MODEL_FILES = ['SF/Equal.v', 'Gen/Gen_c10.v']
 IMPORTS = 'Require Import SF.Prelude SF.Dtype SF.Value SF.Equal Gen.Gen_c10.'
@@ -49,7 +49,7 @@ RULE = ('kernel stratum: TypeBlocks.equals on block pairs -- every pair of 1-col
         'distinct = distinct (recipe pair, options).')
 ASSUMPTIONS = [
     'NumPy == on the generated scalars is Python == (True == 1 == 1.0, NaN/NaT self-unequal, None == None); integers stay below 2**53 so int/float comparison is exact',
-    'a datetime64 array compared with, or copied into, an object array turns NaT into None (validated by the cases that put NaT next to object/other dtypes)',
+    'a datetime64 array compared with an object array turns NaT into None (validated by the cases that put NaT against object columns)',
     'two tuples of pairwise ==-equal str/int/float/bool/date labels have the same Python hash (hash contract of the builtin scalar types); NaN labels are outside the quantifier',
     'CPython set/dict probing: same hash, then identity or stored_key == probe_key',
     'only datetime64[D] among the datetime units; no timedelta64, complex or tuple cells (D11)',
@@ -172,6 +172,29 @@ def _hash_attrs(fn, where):
     return out
 
 
+def _third_path_columnwise(fn):
+    '''the operands of `TypeBlocks <op> TypeBlocks`: _blocks when block-compatible, _reblock() when reblock-compatible,
+    else axis_values(0) on both sides (column by column); any other shape of that decision fails closed'''
+    tops = [n for n in ast.walk(fn) if isinstance(n, ast.If) and ast.unparse(n.test).replace(' ', '') == 'isinstance(other,TypeBlocks)']
+    if len(tops) != 1:
+        raise ValueError('TypeBlocks._ufunc_binary_operator: no single `if isinstance(other, TypeBlocks)`')
+    binds = {'self_operands': [], 'other_operands': []}
+    found = []
+    for stmt in tops[0].body:
+        for n in ast.walk(stmt):
+            if isinstance(n, ast.Assign) and len(n.targets) == 1 and isinstance(n.targets[0], ast.Name) and n.targets[0].id in binds:
+                found.append((n.lineno, n.targets[0].id, ast.unparse(n.value).replace(' ', '')))
+    for _, name, text in sorted(found):
+        binds[name].append(text)
+    want_self = ['self._blocks', 'self.axis_values(0)', 'self._reblock()']
+    want_other = ['other._blocks', 'other.axis_values(0)', 'other._reblock()']
+    if binds['self_operands'] != want_self or binds['other_operands'] != want_other:
+        raise ValueError(f'TypeBlocks._ufunc_binary_operator: operand paths are {binds}, the model expects _blocks / axis_values(0) / _reblock()')
+    ifs = [n for n in ast.walk(fn) if isinstance(n, ast.If) and ast.unparse(n.test).replace(' ', '') == 'notself.reblock_compatible(other)']
+    if len(ifs) != 1 or 'axis_values(0)' not in ast.unparse(ifs[0].body[0]):
+        raise ValueError('TypeBlocks._ufunc_binary_operator: the non-reblock-compatible branch no longer takes axis_values(0)')
+
+
 def _zero_columns_answered(fn):
     '''a top-level `if self._shape[1] == 0: return True` before the `try: eq = self == other` of TypeBlocks.equals'''
     for node in fn.body:
@@ -223,6 +246,7 @@ def generate(repo):
     if [a for a, _ in hs] != ['index']:
         raise ValueError('SeriesHE.__hash__ no longer hashes tuple(index[.values])')
     zero_ok = _zero_columns_answered(_method(tb, 'TypeBlocks', 'equals'))
+    _third_path_columnwise(_method(tb, 'TypeBlocks', '_ufunc_binary_operator'))
     lines = ['(* GENERATED on every run by tools/sfv/props/c10.py:generate from static_frame/core/{type_blocks,frame,series,index,index_hierarchy,bus}.py -- do not edit. *)',
              'Require Import SF.Prelude SF.Equal.', '']
     for name, cfg, src in (('c10_cfg_tb', cfg_tb, 'TypeBlocks.equals: isna_both = <left> & <right>'),
@@ -230,6 +254,7 @@ def generate(repo):
         lines.append(f'(* {src}; fields: left operand is other?, right operand is other?, include_none, (TypeBlocks only) `if self._shape[1] == 0: return True` before == *)')
         lines.append(f'Definition {name} : mcfg := mk_mcfg {_b(cfg[0])} {_b(cfg[1])} {_b(cfg[2])} {_b(zero_ok if name == "c10_cfg_tb" else True)}.')
     lines.append('Definition c10_cfgs : mcfgs := mk_mcfgs c10_cfg_tb c10_cfg_series c10_cfg_index.')
+    lines.append('(* checked: TypeBlocks._ufunc_binary_operator takes _blocks / _reblock() / axis_values(0) as operands (the three paths of M_tb_equals) *)')
     lines.append('')
     lines.append('(* keyword defaults of equals: compare_name compare_dtype compare_class skipna *)')
     for k, d in defaults.items():
@@ -540,9 +565,8 @@ def zero_columns(ra, rb):
 def finding_tags(kind, ra, rb, o):
     '''finding class of a case, decided from the INPUT only'''
     if kind in ('frame', 'tb', 'bus'):
-        # (the classes of the repaired findings C10-tb-mask-self / C10-zero-columns stay as regression inputs, untagged)
-        if not o['skipna'] and nat_pair_values_path(ra, rb):
-            return 'C10-nat-values-path'
+        # (the classes of the repaired findings C10-tb-mask-self / C10-zero-columns / C10-nat-values-path stay as regression inputs, untagged)
+        pass
     return None
 
 
@@ -916,7 +940,7 @@ def kernel_tb_cases(ctx):
 
 
 def fixed_witness_cases(ctx):
-    '''the minimal inputs of the known finding (must reproduce in every run) and of the three repaired ones (regressions: the
+    '''the minimal inputs of the four repaired findings (regressions: the
     specification is the correct behaviour -- symmetric equals, column-less tables equal, hierarchical HE hashable with equal hashes)'''
     a = fr_rec([('float64', ['@nan']), ('int64', [1])], columns=ix_rec(['x', 'y']))
     b = fr_rec([('float64', [3.0]), ('int64', [1])], columns=ix_rec(['x', 'y']))
